@@ -125,6 +125,8 @@ fn weights(prop: Prop) -> Vec<(AKind, u32)> {
             (LifetimeCheck, 1),
             (HandleClone, 1),
             (HandleDrop, 1),
+            (IntroRegister, 2),
+            (IntroQuery, 4),
             (Yield, 6),
         ],
     }
